@@ -26,15 +26,20 @@ def run(ctx):
         # payload among the children, jabber:x:conference element, 0-2 invites, password); one stanza
         # delivered in two pieces (calls / cancellations in between); one error reply of every shape other than the
         # plain well-formed one (no children, no <error/>, foreign namespace, empty, undecodable, ..., whole or in two
-        # pieces), each such script also continued by a second exchange that must succeed
+        # pieces), each such script also continued by a second exchange that must succeed; one presence (the occupant's own or
+        # another occupant's, available or unavailable, wherever the script has one) whose muc#user payload has other CONTENT
+        # than the plain one (status codes 100 110 170 201 210 301 303 307 321 322 332 333 alone and combined, in both orders;
+        # item with nick / real jid / actor and reason / other roles and affiliations / missing / after the codes; <destroy/>),
+        # again continued by a second exchange; two channels in one room under two nicknames; Subject / Invite calls on a
+        # channel while nothing or a Leave is pending on it
         if quick:
             sets = [('{"r1"}', 6, 4, 0), ('{"r1"}', 4, 3, 1), ('{"r1", "r2"}', 4, 3, 0),
                     ('{"r1"}', 3, 2, 1, {"invfull": True}), ('{"r1"}', 4, 3, 0, {"split": 1, "cuts": "{1, 2, 3}"}),
-                    mc.shaped(4, split=1)]
+                    mc.shaped(4, split=1), mc.payloads(3), mc.payloads(4, plset="PlFew"), mc.two_nicks(4), mc.aux_calls(5), mc.renick(5)]
         else:
             sets = [('{"r1"}', 7, 4, 0), ('{"r1"}', 5, 4, 1), ('{"r1", "r2"}', 5, 4, 0),
                     ('{"r1"}', 4, 3, 1, {"invfull": True}), ('{"r1"}', 6, 3, 0, {"split": 1, "cuts": "{1, 2, 3}"}),
-                    mc.shaped(5), mc.shaped(4, split=1)]
+                    mc.shaped(5), mc.shaped(4, split=1), mc.payloads(4), mc.payloads(5, plset="PlFew", other=False), mc.two_nicks(4), mc.aux_calls(6, calls=4), mc.renick(6)]
         seq = mc.muc_emit(ctx, sets)
         exp = mc.muc_explore_scenarios(ctx.tier)
     files, s1, s2 = [], None, None
@@ -66,15 +71,22 @@ def run(ctx):
         "distinct_nontrivial": ntr, "rejected": len(rej), "rejections_by_clause": per,
         "scripts_cut_short": (s1["cut"] if s1 else 0), "hooks": hooks,
         "binding_selftest_mutants_rejected": nself,
-        "exhaustive": "every well-formed script of join/rejoin/leave/cancel calls and room stanzas (self-presence, error answer; noise: other nick, never-joined room, 0-2 invitations, unrelated stanzas) up to the tier's length bound (quick: one room <= 6 steps without noise, <= 4 with one noise step, two rooms <= 4; thorough: 7 / 5 / 5), each step taken at quiescence; plus every script <= 3 / 4 steps with one invitation message out of the full invitation alphabet (16 orders of body / thread / muc#user payload / jabber:x:conference element x 0-2 <invite/> x password: 80 messages), and every script <= 4 / 6 steps in which one stanza is delivered in two pieces (cut after the start tag, in the middle, before the end tag) with calls and cancellations in between; and every script <= 4 / 5 steps in which one error reply has one of the 11 shapes other than the plain well-formed one (well-formed: error alone, muc#user payload / character data and foreign elements before it, children after it; malformed: no children, no <error/>, <error/> of a foreign namespace, empty <error/>, undecodable attribute, unknown type, text without condition), whole or in two pieces, each also continued by a second exchange (the open call answered by its self-presence, or a new join that is admitted) which must succeed",
+        "exhaustive": "every well-formed script of join/rejoin/leave/cancel calls and room stanzas (self-presence, error answer; noise: other nick, never-joined room, 0-2 invitations, unrelated stanzas) up to the tier's length bound (quick: one room <= 6 steps without noise, <= 4 with one noise step, two rooms <= 4; thorough: 7 / 5 / 5), each step taken at quiescence; plus every script <= 3 / 4 steps with one invitation message out of the full invitation alphabet (16 orders of body / thread / muc#user payload / jabber:x:conference element x 0-2 <invite/> x password: 80 messages), and every script <= 4 / 6 steps in which one stanza is delivered in two pieces (cut after the start tag, in the middle, before the end tag) with calls and cancellations in between; and every script <= 4 / 5 steps in which one error reply has one of the 11 shapes other than the plain well-formed one (well-formed: error alone, muc#user payload / character data and foreign elements before it, children after it; malformed: no children, no <error/>, <error/> of a foreign namespace, empty <error/>, undecodable attribute, unknown type, text without condition), whole or in two pieces, each also continued by a second exchange (the open call answered by its self-presence, or a new join that is admitted) which must succeed; and every script <= 3 / 4 steps in which one presence of the room - from the channel's occupant address or from another occupant, available or unavailable, before / during / after a join and as the answer to a leave - carries a muc#user payload out of 32 (status codes none / 110 / 100 / 170 / 201 / 210 / 301 / 303 / 307 / 321 / 322 / 332 / 333 alone and combined in both orders x item variants: plain, codes first, no item, nick, real jid of this session / of another resource of the account, actor and reason, outcast, role kept, visitor, owner, <destroy/> sibling), <= 4 / 5 steps with the 7 most telling ones (thorough: on the occupant's own presences), each also continued by a second exchange (which makes it a re-join with the same Channel after a kick / ban / nickname change / destruction); every script <= 4 steps on two channels in ONE room under two nicknames; every script <= 5 / 6 steps with one Subject / Invite call on a channel while nothing or a Leave is pending on it; every script <= 5 / 6 steps with one Join with the Nick option on a channel that has an occupant address (it asks for the other nickname), answered by the room with the self-presence of the address asked for / of the address held / an error / nothing (cancel), with the available and unavailable presences of BOTH addresses before, during and after the call: membership follows the presences of the address the occupant holds (the old one until the room has granted the new one). Which presence is 'the occupant's unavailable presence' / 'the self-presence for the occupant address' is decided by type and sender address alone: no clause reads the payload content",
+        "payload_content_scripts": len([x for x in seq if any(mc.payload_text(st.get("st") or {}) for st in x["steps"])]),
+        "two_nickname_scripts": len([x for x in seq if any(st.get("room") == "r1b" for st in x["steps"])]),
+        "subject_invite_scripts": len([x for x in seq if any(st.get("op") in mc.AUX for st in x["steps"])]),
+        "nick_option_scripts": len([x for x in seq if any(st.get("op") == "renick" for st in x["steps"])]),
         "samples": samples[:2],
         "invitation_scripts": len([x for x in seq if any(st.get("st", {}).get("ty") == "inv" for st in x["steps"])]),
         "error_reply_shape_scripts": len([x for x in seq + exp if any((st.get("st") or {}).get("shape", "-") not in ("-", "wf") for st in (x.get("steps") or []))]),
         "split_delivery_scripts": len([x for x in seq if any(st.get("cut") for st in x["steps"])]),
-        "rule": "a trace is distinct if its event sequence differs; scheduler part: depth-first enumeration of interleavings at the yield points of package muc (before the rendezvous selects of HandlePresence, Join, Leave) and call starts, script steps (calls, cancellations, stanzas or first pieces / remainders of stanzas fed to the transport) in order, pre-emption bound %d, capped per script; the leave scripts cancel the call before / after the room's answer was sent and between the two pieces of an answer delivered split (after the start tag, in the middle, before the end tag)" % (1 if quick else 2),
+        "rule": "a trace is distinct if its event sequence differs; every presence of a script carries its muc#user payload content (status codes in document order, item variant), which the oracle never reads: membership and the answers to join / leave follow the type and the sender address of the presence alone; scheduler part: depth-first enumeration of interleavings at the yield points of package muc (before the rendezvous selects of HandlePresence, Join, Leave) and call starts, script steps (calls, cancellations, stanzas or first pieces / remainders of stanzas fed to the transport) in order, pre-emption bound %d, capped per script; the leave scripts cancel the call before / after the room's answer was sent and between the two pieces of an answer delivered split (after the start tag, in the middle, before the end tag)" % (1 if quick else 2),
     }, assumptions=["calls on one Channel are sequential (the type is not safe for concurrent calls); calls on different rooms run concurrently",
                     "ties are accepted: reply vs. cancellation, error vs. self-presence, membership after a refused leave (TestPartError pins 'not joined')",
                     "the room's stanzas are processed in the order sent (one serve loop)",
+                    "the content of a presence's muc#user payload (status codes, item, <destroy/>) never decides which presence it is: 'the occupant's unavailable presence' is the presence of type unavailable from the occupant address the channel joined as, also when it announces a new nickname (303: the library does not re-key a channel) or comes with the real jid of another resource; every payload sent is decodable (undecodable ones only for rooms never joined)",
+                    "Join with the Nick option: success is accepted after the self-presence of the address asked for or of the address held (the room ignored the change), a return is owed only after the former or an error; when the room confirms both addresses during one call, or grants the new one after the call has given up, nothing is required of that channel any more; the unavailable presence of an old address the room never vacated while granting the new one leaves membership undetermined; Me() is not judged on a channel that ever asked for another nickname",
+                    "Subject / Invite are made only while no call or a Leave is pending on the channel; their outcome is not judged (ok or an error), only that they return and change nothing",
                     "an invitation's fields = which <invite/> (its reason), the password, for direct invitations the room; callbacks compared as a bag (order free); an Invitation without XMLName counts as mediated; the JID of a mediated invitation is not judged",
                     "stalls are not judged while the room is in the middle of a stanza (the peer always delivers the remainder)",
                     "an error reply without a decodable stanza error (malformed shapes) must end the call with SOME error - a stanza error of any condition or another error - and be released; which error is not judged"])
